@@ -105,7 +105,12 @@ CHECKS = {
          'verbatim, \\verb, comments, macro names, special sequences), '
          'get_txt_pos reports for each character of such a token the offset '
          'where the source holds it, a special sequence is recognised and '
-         'replaced at its first character. Not a theorem: that the expander '
+         'replaced at its first character; end to end through the expander '
+         'for documents of plain text, undeclared control words, comments, '
+         'braces and nested pass-through macros with braced arguments: the '
+         'text tokens leave the expander with the character and position '
+         'the scanner gave them, in order, and no other visible text is '
+         'output (C02_text_keeps_its_place). Not a theorem: that the expander '
          'moves copied tokens unchanged (arguments, \\text in maths, '
          'footnotes); decided by the differential run and the copy oracle',
     ref='6/C02, 11.2', technique='Coq proof (scanner faithfulness, get_txt_pos) '
@@ -115,7 +120,10 @@ CHECKS = {
          'lines keeps every non-blank character in order and invents none; '
          'the language split holds exactly text and positions of the stream; '
          'a macro use yields the body with each argument as often as named; '
-         'plain documents are conserved end to end (C06). Not a theorem: '
+         'plain documents (C06) and documents with undeclared control words, '
+         'comments, braces and nested pass-through macros are conserved end '
+         'to end through the main loop of the expander '
+         '(C03_words_stay_markup_vanishes). Not a theorem: '
          'what each macro / environment / the maths parser keeps or hides; '
          'decided by the marker-word oracle and the differential run',
     ref='6/C03, 11.2', technique='Coq proof (conservation lemmas) + '
@@ -226,7 +234,10 @@ CHECKS = {
     text='partial. Theorems: the step that meets an undeclared macro outside '
          'maths appends its name unless listed (no repetition, order of first '
          'use), inside maths leaves the list alone, and never lists a declared '
-         'name. Not a theorem: that no other step touches the list and which '
+         'name; end to end for documents of plain text, undeclared control '
+         'words, comments, braces and nested pass-through macros the list is '
+         'exactly the undeclared names, once each, in order of first use. '
+         'Not a theorem: that no other step touches the list and which '
          'uses the expander reaches; decided by the generator oracle, the '
          'differential run and the shell --list-unknown output',
     ref='6/C19, 11.2', technique='Coq proof (list discipline of the step) + '
